@@ -2,6 +2,8 @@
 
 from __future__ import annotations
 
+import ast
+
 from .. import terms as tm
 from ..model import AnalysisError
 from .common import count_form, ob, need, call_name, roles, swap_roles, role_of, lit, is_lit, resolve_ite_free
@@ -355,6 +357,23 @@ def rule_vocab(ctx):
                 arr = s_.a[1][0]
                 if arr.op == "call" and call_name(arr) == "np.array":
                     arr = arr.a[1][0]
+                if arr.op in ("list", "tuple") and arr.a:
+                    # the comprehension over a literal vocabulary, unrolled: one whole-bitmap comparison per quality
+                    names = []
+                    for e in arr.a:
+                        v = _ref_all_equal(e, "SEMIall")
+                        while v is not None and v.op == "call" and call_name(v) in ("np.array", "np.asarray") and len(v.a[1]) == 1:
+                            v = v.a[1][0]
+                        if v is not None and v.op == "sub" and v.a[1].op == "slice" and tm.is_const(v.a[1].a[0], None) and tm.is_const(v.a[1].a[1], 12) and tm.is_const(v.a[1].a[2], None):
+                            v = v.a[0]  # [:12] of a 12-entry template is the template
+                        if v is not None and v.op == "sub" and v.a[0].op == "glob" and v.a[0].a[0] == "chord.QUALITIES" and v.a[1].op == "const" and isinstance(v.a[1].a[0], str):
+                            names.append(v.a[1].a[0])
+                        else:
+                            names = None
+                            break
+                    if names is not None:
+                        good = sorted(names) == sorted(["maj", "min", "maj7", "7", "min7", ""])
+                        why = "in-vocabulary iff the whole reference bitmap equals QUALITIES[q] for q in %s" % names
                 if arr.op == "comp" and len(arr.a[2]) == 1:
                     elt, it = arr.a[1], arr.a[2][0]
                     v = _ref_all_equal(elt, "SEMIall")
@@ -571,13 +590,17 @@ def rule_encodeall(ctx):
     outs = {}
     for m in s.by_kind("mutate"):
         if m.how == "setitem" and m.root in ("roots", "semitones", "basses") or (m.how == "setitem" and m.key is not None and m.key.op == "idx"):
-            outs.setdefault(m.root, []).append(m)
+            name = m.root
+            tg = m.d.get("target")
+            if name not in ("roots", "semitones", "basses") and isinstance(tg, ast.Subscript) and isinstance(tg.value, ast.Attribute):
+                name = ast.unparse(tg.value)  # the three arrays held as fields of one record: encoded.roots[i] = ...
+            outs.setdefault(name, []).append(m)
     need(len(outs) >= 3, R, "encode_many: the three output stores were not found")
     # per-field codebooks: lists that only ever receive one fixed component of encode(label, reduce)
     books = {}
     by_root = {}
     for m in s.by_kind("mutate"):
-        if m.root is not None and m.root not in outs:
+        if m.root is not None and m.root not in outs and not any(m is x for ms in outs.values() for x in ms):
             by_root.setdefault(m.root, []).append(m)
     for rt, ms in by_root.items():
         ks = set()
@@ -625,8 +648,9 @@ def rule_encodeall(ctx):
             good = good and not conds
             yield ob(R, f, "chord.encode_many:%s@%d" % (root, k), good, "output %s[i] is a component of encode(label) for every label" % root if good else "output %s[i] is written as %s%s: some labels bypass encode()" % (root, tm.show(m.val, 3), (" under " + "; ".join(conds)) if conds else ""), node=m.node)
     # the cache only ever holds encode() results
+    out_sites = {id(x) for ms in outs.values() for x in ms}
     for m in s.by_kind("mutate"):
-        if m.how == "setitem" and m.root not in outs:
+        if m.how == "setitem" and m.root not in outs and id(m) not in out_sites:
             v = m.val
             cf = count_form(v)
             if cf is not None and book_of(cf[1]) is not None:
